@@ -48,6 +48,10 @@ chk('C13','exploration',
     'Seeded histories on one shared parsed dictionary (up to 6 compile_dict calls over 8 codecs + an unknown codec x numeric_enums, interleaved with pre_process_dict, pformat/exec persistence in memory and through the real .py loading path, deepcopy, CLI double compile) compared after every compile with compile_string on a fresh parse (outcome class and behaviour digest); all 256 ordered (codec, flag) pairs enumerated on each corpus module.',
     'Behavioural equality is decided on a seeded probe set per type (valid values, one corrupted value, one malformed input, decode_length prefixes), not on all values.',
     'deterministic simulation: seeded operation histories over persistent shared state against a fresh-parse reference model, with persist/restore steps', 'DESIGN.md 3 C13')
+chk('C17','exploration',
+    'Seeded histories of compiler processes on one shared cache directory: real compile_files + diskcache + sqlite on a real filesystem under an LD_PRELOAD libc interposer; edits of the sources, option changes (numeric_enums, any_defined_by_choices, encoding, file boundaries), compiles killed at libc call n (KILL / TORN write) or at a Python tick, compiles under ENOSPC/EIO/EDQUOT and short writes, truncate / delete / zero-page / bit-flip damage between processes; every returned specification compared (behaviour digest) with the uncached compile; errors allowed only after damage or under in-flight I/O errors, recovery required after kills and once I/O errors stop. Plus exhaustive sweeps: every libc crash point (KILL and TORN) of the crashing operation of fixed scenarios (one in the quick tier, six in the thorough tier).',
+    'Crash = process kill (completed writes survive); power loss and concurrent writers are not simulated. Compiler children are forks of the driver; in killed children the parse+compile step is replaced by the result the same real code produced in the driver (the cache logic, diskcache and sqlite stay real; every 8th sweep point and 20% of random crash ops run fully real). Un-faulted compiles mostly run in the driver process.',
+    'deterministic simulation: seeded crash / I-O-fault / damage histories over real storage behind a libc fault seam, uncached reference model, exhaustive crash-point sweeps', 'DESIGN.md 3 C17')
 m = {
  'version': 1,
  'setup_cmd': '/venv/bin/python -m vsim.build',
@@ -61,6 +65,7 @@ m = {
  'engines': [
    {'name':'threadsim','path':'vsim/sched.py','serves_properties':['C18'],'kind_free_text':'deterministic baton-passing scheduler over real threads; pre-emption at line events of a C-level step clock'},
    {'name':'dicthist','path':'checks/c13.py','serves_properties':['C13'],'kind_free_text':'operation histories on one long-lived specification dictionary with persist/restore, against a fresh-parse reference'},
+   {'name':'cachesim','path':'checks/c17.py','serves_properties':['C17'],'kind_free_text':'forked compiler processes over a real diskcache/sqlite directory under a libc fault interposer (vsim/shim/vshim.c, vsim/fsfault.py)'},
    {'name':'wire','path':'vsim/wire.py','serves_properties':['C08','C15','C16'],'kind_free_text':'simulated byte channel (datagram and stream) with explicit fault descriptors between a real encoder and a real decoder, under a deterministic step clock'},
  ],
  'checks': checks,
